@@ -1,6 +1,8 @@
 (* C09 — compaction follows message count alone; idempotent and replay-safe.
    Statements only; proofs are in Proofs/CompactionProofs.v.  Every theorem is closed by `exact`. *)
-From RipV Require Import Base.Prelude Model.Compaction Proofs.CompactionProofs.
+From RipV Require Import Base.Prelude Model.Compaction Proofs.CompactionProofs Proofs.CompactionSummaryProofs
+  Proofs.CompactionCacheProofs.
+From RipV Require Model.Cache Proofs.CacheProofs.
 
 (* Cut points are exactly the k*stride-th messages, latest k first (k = K, K-1, … >= 1 with
    K = message_count / stride), at most clamp(limit) of them, each identified by that message's (seq, id).
@@ -319,3 +321,164 @@ Example c09_demo_cut_points :
   = [(4, 5, 6, false, None); (2, 2, 3, true, Some 9)]
   /\ map eid (filter (fun e => match ebody e with BCkpt _ _ 2 _ => true | _ => false end) demo_log) = [8; 9].
 Proof. exact demo_cut_points. Qed.
+
+(* ---------- what feeds an auto summary (the text rendering stays abstract) ----------
+   `cut_read K snap s p` is the read half of one planned cut of a summarizer job: `snap` is the job's replay snapshot,
+   `log s` the stream at that moment (the job's own earlier checkpoints are in it), `p` the planned cut.
+   The summary an executed cut writes is exactly that value … *)
+Theorem c09_summary_written_is_cut_read : forall (K : consts) (snap : list ev) (stride : N) (s : st) (p : plan) (s2 : st) (c : created),
+  run_cut K snap stride s p = Ok (s2, c) ->
+  exists v, cut_read K snap s p = Ok v /\ arts s2 = arts s ++ [(cr_art c, v)] /\ art_read s2 (cr_art c) = Some v
+            /\ cr_seq c = pl_seq p /\ cr_mid c = pl_mid p.
+Proof. exact run_cut_writes_inputs. Qed.
+Print Assumptions c09_summary_written_is_cut_read.
+
+(* … the base is the latest checkpoint frame strictly below the cut — largest to_seq < cut, then latest in the stream
+   (`latest_below`) — of the current stream when the bounded sidecar scan answers and finds one, of the job's snapshot
+   otherwise (`base_spec`); base_to_seq is that frame's to_seq (0 without a base) … *)
+Theorem c09_summary_base_is_latest_below_cut : forall (K : consts) (cur snap : list ev) (t : N),
+  Forall (fun c => ck_to c <> 0) (ckpts snap) ->
+  base_spec K cur snap t (fst (select_base K cur snap t))
+  /\ snd (select_base K cur snap t) = match fst (select_base K cur snap t) with Some b => ck_to b | None => 0 end.
+Proof. exact select_base_spec. Qed.
+Print Assumptions c09_summary_base_is_latest_below_cut.
+
+(* … and the summary is fed by: that base's artifact (its text is carried forward exactly when it is readable and not the
+   legacy placeholder; note 1 = legacy placeholder, 2 = unreadable => bootstrap), and the messages of the snapshot with
+   base_to_seq < seq <= cut (all messages up to the cut when bootstrapping); its coverage is the cut *)
+Theorem c09_summary_feeds : forall (K : consts) (snap : list ev) (s : st) (p : plan) (v : summ),
+  msorted snap -> Forall (fun c => ck_to c <> 0) (ckpts snap) ->
+  cut_read K snap s p = Ok v ->
+  base_spec K (log s) snap (pl_seq p) (base_ck K snap s p)
+  /\ su_base v = option_map ck_art (base_ck K snap s p)
+  /\ (su_base_used v = true <-> exists a w, su_base v = Some a /\ art_read s a = Some w /\ su_kind w <> 1)
+  /\ su_note v = match su_base v with
+                 | None => 0
+                 | Some a => match art_read s a with Some w => if su_kind w =? 1 then 1 else 0 | None => 2 end
+                 end
+  /\ su_slice v = map snd (filter (fun m => ((if su_base_used v then match base_ck K snap s p with Some c => ck_to c | None => 0 end else 0) <? mseq m)
+                                            && (mseq m <=? pl_seq p)) (msg_full snap))
+  /\ su_to_seq v = pl_seq p /\ su_to_mid v = Some (pl_mid p).
+Proof. exact summary_feeds. Qed.
+Print Assumptions c09_summary_feeds.
+
+(* The inputs are a function of the history up to the cut: of the messages up to the cut and the checkpoint frames of
+   earlier cuts (`relevant`) in the two streams the job reads, of whether the bounded sidecar scan answers, and of the
+   readable summaries — two runs that agree on these build the same summary value (and the same error otherwise). *)
+Theorem c09_summary_inputs_function_of_history_upto_cut :
+  forall (K : consts) (snap snap' : list ev) (s s' : st) (p : plan) (x : N * N),
+  msorted snap -> msorted snap' ->
+  Forall (fun c => ck_to c <> 0) (ckpts snap) -> Forall (fun c => ck_to c <> 0) (ckpts snap') ->
+  In (pl_seq p, pl_mid p, x) (msg_full snap) ->
+  relevant (pl_seq p) snap = relevant (pl_seq p) snap' ->
+  relevant (pl_seq p) (log s) = relevant (pl_seq p) (log s') ->
+  (nlen (ckpts (log s)) <=? k_ck_window K) = (nlen (ckpts (log s')) <=? k_ck_window K) ->
+  (forall a, art_read s a = art_read s' a) ->
+  cut_read K snap s p = cut_read K snap' s' p.
+Proof. exact summary_inputs_local. Qed.
+Print Assumptions c09_summary_inputs_function_of_history_upto_cut.
+
+(* In particular nothing beyond the cut feeds it: later messages, checkpoint frames of this or later cuts and every
+   other frame (`beyond`), appended to the snapshot and to the stream, leave the summary value unchanged. *)
+Theorem c09_summary_ignores_frames_beyond_cut :
+  forall (K : consts) (snap : list ev) (s : st) (p : plan) (x : N * N) (later later' : list ev) (arts' : list (N * summ)),
+  msorted snap -> msorted (snap ++ later) ->
+  Forall (fun c => ck_to c <> 0) (ckpts snap) ->
+  In (pl_seq p, pl_mid p, x) (msg_full snap) -> pl_seq p <> 0 ->
+  Forall (beyond (pl_seq p)) later -> Forall (beyond (pl_seq p)) later' ->
+  (nlen (ckpts (log s)) <=? k_ck_window K) = (nlen (ckpts (log s ++ later')) <=? k_ck_window K) ->
+  (forall a, art_read s a = art_read {| log := log s ++ later'; arts := arts' |} a) ->
+  cut_read K (snap ++ later) {| log := log s ++ later'; arts := arts' |} p = cut_read K snap s p.
+Proof. exact summary_ignores_frames_beyond_cut. Qed.
+Print Assumptions c09_summary_ignores_frames_beyond_cut.
+
+(* non-vacuity: 7 messages, stride 2, max_new 2: the summary of the 4th message is built from scratch out of messages
+   1..4, the summary of the 6th on top of it out of messages 5 and 6; a later message, a later checkpoint frame for the
+   same cut and another frame appended to snapshot and stream leave the first summary's inputs unchanged *)
+Example c09_demo_summary_inputs :
+  (msorted (log demo7) /\ Forall (fun c => ck_to c <> 0) (ckpts (log demo7))
+   /\ In (pl_seq demo7_cut4, pl_mid demo7_cut4, (1, 4)) (msg_full (log demo7)))
+  /\ map (fun kv => (fst kv, su_to_seq (snd kv), su_base (snd kv), su_base_used (snd kv), su_slice (snd kv))) (arts demo7_after)
+     = [(1, 5, None, false, [(0, 1); (1, 2); (0, 3); (1, 4)]); (2, 7, Some 1, true, [(0, 5); (1, 6)])]
+  /\ (Forall (beyond (pl_seq demo7_cut4)) demo7_later /\ msorted (log demo7 ++ demo7_later))
+  /\ cut_read real_consts (log demo7 ++ demo7_later) {| log := log demo7 ++ demo7_later; arts := arts demo7 |} demo7_cut4
+     = cut_read real_consts (log demo7) demo7 demo7_cut4.
+Proof. exact demo7_summary_inputs. Qed.
+
+(* ---------- the cached route (C04's model, Model/Cache.v) returns the planner's cut points ----------
+   C04 (builder cache3) proves `c04_cut_points_eq_truth_partial`: under valid_log / FullFaithful / CompFaithful /
+   OrdFaithful the cached route `Cache.cut_points_ord` (message count and ordinal look-ups through the ordinal index,
+   checkpoint look-up through the `.comp` sidecar, every fallback) equals C04's truth answer.  The two models were
+   written independently; `abs_log` maps a C09 history to a C04 log (same seqs; message / checkpoint(to_seq) / other;
+   every line length 1).  C04's truth answer on `abs_log l` IS the C09 planner's answer on `l` (`to_c04` renames the
+   fields; C04 names the latest checkpoint by its frame seq, C09 by its id — both of the frame `cut_lookup`) … *)
+Theorem c09_c04_truth_answers_agree : forall (K : consts) (l : list ev) (stride lim : N),
+  k_limit_lo K = 1 -> k_limit_hi K = 32 -> Cache.valid_log (abs_log l) = true ->
+  Cache.cut_points_truth (abs_log l) stride lim = (nlen (msgs l), map (to_c04 K l) (cut_points K stride lim l)).
+Proof. exact cut_points_truth_bridge. Qed.
+Print Assumptions c09_c04_truth_answers_agree.
+
+(* … hence, under C04's hypotheses, so is the answer of the cached route … *)
+Theorem c09_fast_path_is_planner_partial :
+  forall (K : consts) (l : list ev) (stride lim me mb : N) (comp full : Cache.sfile) (ord : Cache.ofile) (known : N -> bool),
+  k_limit_lo K = 1 -> k_limit_hi K = 32 ->
+  Cache.valid_log (abs_log l) = true ->
+  CacheProofs.FullFaithful (abs_log l) full -> CacheProofs.CompFaithful (abs_log l) comp full ->
+  CacheProofs.OrdFaithful (abs_log l) ord ->
+  Cache.cut_points_ord me mb comp full (abs_log l) ord known stride lim
+  = (nlen (msgs l), map (to_c04 K l) (cut_points K stride lim l)).
+Proof. exact fast_path_is_planner. Qed.
+Print Assumptions c09_fast_path_is_planner_partial.
+
+(* … c09_cut_points_exact as a corollary on the cached route: message_count is the number of messages and the cut
+   points are exactly the k*stride-th messages, latest first … *)
+Theorem c09_cut_points_exact_on_fast_path_partial :
+  forall (K : consts) (l : list ev) (stride lim me mb : N) (comp full : Cache.sfile) (ord : Cache.ofile) (known : N -> bool),
+  k_limit_lo K = 1 -> k_limit_hi K = 32 -> stride <> 0 ->
+  Cache.valid_log (abs_log l) = true ->
+  CacheProofs.FullFaithful (abs_log l) full -> CacheProofs.CompFaithful (abs_log l) comp full ->
+  CacheProofs.OrdFaithful (abs_log l) ord ->
+  fst (Cache.cut_points_ord me mb comp full (abs_log l) ord known stride lim) = nlen (msgs l)
+  /\ map (fun c => (Cache.cp_ordinal c, Some (Cache.cp_to_seq c)))
+         (snd (Cache.cut_points_ord me mb comp full (abs_log l) ord known stride lim))
+     = map (fun k => (k * stride, option_map fst (nth_error (msgs l) (N.to_nat (k * stride - 1)))))
+           (ks (limit_of K lim) (nlen (msgs l) / stride)).
+Proof. exact fast_path_exact. Qed.
+Print Assumptions c09_cut_points_exact_on_fast_path_partial.
+
+(* … and c09_checkpointed_iff / c09_checkpointed_latest_wins on the cached route: already_checkpointed exactly when a
+   checkpoint frame for that seq exists; the checkpoint named is the latest such frame *)
+Theorem c09_checkpointed_on_fast_path_partial :
+  forall (K : consts) (l : list ev) (stride lim me mb : N) (comp full : Cache.sfile) (ord : Cache.ofile) (known : N -> bool)
+         (c' : Cache.cutpoint),
+  k_limit_lo K = 1 -> k_limit_hi K = 32 ->
+  Cache.valid_log (abs_log l) = true ->
+  CacheProofs.FullFaithful (abs_log l) full -> CacheProofs.CompFaithful (abs_log l) comp full ->
+  CacheProofs.OrdFaithful (abs_log l) ord ->
+  In c' (snd (Cache.cut_points_ord me mb comp full (abs_log l) ord known stride lim)) ->
+  (Cache.cp_already c' = true <-> exists e r a m, In e l /\ ebody e = BCkpt r a (Cache.cp_to_seq c') m)
+  /\ (forall q, Cache.cp_latest c' = Some q <->
+        exists b, latest_for (ckpts l) (Cache.cp_to_seq c') b /\ ck_seq b = q /\ cut_lookup K l (Cache.cp_to_seq c') = Some b).
+Proof. exact fast_path_checkpointed_iff. Qed.
+Print Assumptions c09_checkpointed_on_fast_path_partial.
+
+(* The full statement (no hypothesis on the caches) is false: C04's K1 / K2 / K3 witnesses (c04_K2_changes_cut_points,
+   c04_K3_changes_cut_points; open findings S3 / S4 / S4b / S4c / S4d) are cache states under which the cached route
+   differs from the planner's answer.  `_partial` = exactly C04's hypotheses. *)
+Definition c09_fast_path_is_planner_full : Prop :=
+  forall (K : consts) (l : list ev) (stride lim me mb : N) (comp full : Cache.sfile) (ord : Cache.ofile) (known : N -> bool),
+  k_limit_lo K = 1 -> k_limit_hi K = 32 -> Cache.valid_log (abs_log l) = true ->
+  Cache.cut_points_ord me mb comp full (abs_log l) ord known stride lim
+  = (nlen (msgs l), map (to_c04 K l) (cut_points K stride lim l)).
+
+(* non-vacuity: the demo thread (5 messages, cut 2 checkpointed twice: the later frame, seq 8, is named), with every
+   cache lost and with the projections in place *)
+Example c09_demo_fast_path :
+  Cache.valid_log demo_abs = true
+  /\ (CacheProofs.FullFaithful demo_abs None /\ CacheProofs.CompFaithful demo_abs None None /\ CacheProofs.OrdFaithful demo_abs Cache.OAbsent)
+  /\ (CacheProofs.FullFaithful demo_abs (Some (Cache.project_full demo_abs))
+      /\ CacheProofs.CompFaithful demo_abs (Some (Cache.comp_projection demo_abs)) (Some (Cache.project_full demo_abs)))
+  /\ Cache.cut_points_truth demo_abs 2 32
+     = (5, [ {| Cache.cp_ordinal := 4; Cache.cp_to_seq := 5; Cache.cp_already := false; Cache.cp_latest := None |};
+             {| Cache.cp_ordinal := 2; Cache.cp_to_seq := 2; Cache.cp_already := true; Cache.cp_latest := Some 8 |} ]).
+Proof. exact demo_bridge. Qed.
